@@ -362,6 +362,29 @@ def run_job(job, T):
             for ids in itertools.product(range(n), repeat=L):
                 for o in ({}, {'default_flow_style': True}, {'canonical': True}):
                     check_anchors(T, ids, o)
+        # the same object handed over again (changed or not) and short-lived temporaries: each document's text is what a
+        # stand-alone dump of the value gives at that moment
+        for dn, Dm, Ld in DUMPERS:
+            for o in ({}, {'default_flow_style': True}):
+                T.evaluations += 1
+                expected = []
+
+                def feed():
+                    x = [1, {'k': 'v'}]
+                    shared = [x, x]
+                    for step in range(4):
+                        for v in (x, shared, [step, [step]], {'t': [step]}):
+                            expected.append(yaml.dump(v, Dumper=Dm, explicit_start=True, **o))
+                            yield v
+                        x.append(step)
+                try:
+                    text = yaml.dump_all(feed(), Dumper=Dm, explicit_start=True, **o)
+                except Exception as e:
+                    T.violation('anchors', 'exception:' + type(e).__name__, {'generated': True, 'options': o, 'dumper': dn}, detail=str(e)[:200])
+                    continue
+                if text != ''.join(expected):
+                    T.violation('anchors', 'document-text-depends-on-history', {'generated': True, 'options': o, 'dumper': dn},
+                                detail='dump_all of a generator gives %r, the values dumped one by one give %r' % (_short(text), _short(''.join(expected))))
         T.sample('anchors', {'docs': list(ids)})
     else:
         raise ValueError(job)
@@ -406,7 +429,10 @@ def replay(sub, case, T):
         # re-run the whole (tiny) load-order sub-space
         run_job(('loadorder',), T)
     elif sub == 'anchors':
-        check_anchors(T, tuple(case['docs']), opts)
+        if case.get('generated'):
+            run_job(('anchors',), T)
+        else:
+            check_anchors(T, tuple(case['docs']), opts)
     else:
         if 'string' in case:
             s = case['string']
